@@ -102,3 +102,42 @@ VARIANTS = V
 
 add("C04", "constants not removed from the position", "nifty/cl/minimization/energy_adapter.py", "            position = position.extract_by_keys(varkeys)\n", "", "R04.1")
 VARIANTS = V
+
+# ---- rules added after the seeded rounds 3-5
+add("C08", "empty upper bins not counted", "nifty/cl/domains/power_space.py", "minlength=nbin)", ")", "R08.6")
+add("C09", "config rebinds the shared dict", "nifty/config.py", "    _config[key] = value", "    _config = {**_config, key: value}", "R09.3")
+add("C09", "scipy hartley loses axes on device", "nifty/cl/ducc_dispatch.py", "        tmp = AnyArray(cufftn(a._val, axes=axes))", "        tmp = AnyArray(cufftn(a._val))", "R09.4")
+add("C09", "hartley operator transforms all axes", OPS + "harmonic_operators.py", "        tmp = hartley(x.val, axes=axes)", "        tmp = hartley(x.val)", "R09.4")
+add("C09", "jax correlated field axes start at zero", "nifty/re/correlated_field.py", "axes = tuple(range(n - len(sub_shp), n))", "axes = tuple(range(0, len(sub_shp)))", "R09.5")
+add("C10", "power_analyze drops imaginary part", "nifty/cl/sugar.py", "parts = [field.real*field.real + field.imag*field.imag]", "parts = [field.real*field.real]", "R10.3")
+add("C10", "power_analyze refuses complex input again", "nifty/cl/sugar.py", "    if field_real and keep_phase_information:", "    if (not field_real) and keep_phase_information:", "R10.3")
+add("C10", "bin sums not divided by bin size", "nifty/cl/sugar.py", "return pd.adjoint_times(field.weight(1)).weight(-1)", "return pd.adjoint_times(field.weight(1))", "R10.3")
+add("C10", "Field spectrum unreachable", "nifty/cl/sugar.py", "    if isinstance(power_spectrum, Field) or not callable(power_spectrum):", "    if not callable(power_spectrum):", "R10.4")
+add("C10", "index array narrowed", OPS + "distributors.py", "self._dofdex = AnyArray(dofdex.ravel())", "self._dofdex = AnyArray(dofdex.ravel().astype(np.int16))", "R10.5")
+add("C11", "nested likelihood sums duplicated", OPS + "energy_operators.py", "                res = cls.unpack(op._ops, res)", "                res = res + cls.unpack(op._ops, res)", "R11.3")
+add("C11", "poisson transformation scale", OPS + "energy_operators.py", "return np.float64, 2.*Operator.identity_operator(self._domain).sqrt()",
+    "return np.float64, Operator.identity_operator(self._domain).sqrt()", "R11.4")
+add("C11", "bernoulli energy sign", OPS + "energy_operators.py", "res = -x.log().vdot(self._d) + (1.-x).log().vdot(self._d-1.)",
+    "res = -x.log().vdot(self._d) - (1.-x).log().vdot(self._d-1.)", "R11.4")
+add("C11", "student-t metric constant", OPS + "energy_operators.py", "makeOp(((th+1)/(th+3)).sqrt())", "makeOp(((th+1)/(th+2)).sqrt())", "R11.4")
+add("C11", "sandwich scaling shortcut squares a complex factor", OPS + "sandwich_operator.py", "fct = abs(bun._factor)**2", "fct = bun._factor**2", "R11.5")
+add("C13", "sum sample keeps last summand", OPS + "sum_operator.py", "res = tmp if res is None else res.unite(tmp)", "res = tmp", "R13.3")
+add("C32", "momentum scale exponent", "nifty/re/hmc_oo.py", "self.inverse_mass_matrix ** (-0.5)", "self.inverse_mass_matrix ** (0.5)", "R32.2")
+add("C32", "kinetic gradient without mass", "nifty/re/hmc_oo.py", "kinetic_energy_gradient = lambda inv_m, mom: inv_m * mom", "kinetic_energy_gradient = lambda inv_m, mom: mom", "R32.2")
+add("C32", "unbiased merge prefers old tree", "nifty/re/hmc.py", "            new_subtree.logweight - current_subtree.logweight\n        )\n    # print",
+    "            current_subtree.logweight - new_subtree.logweight\n        )\n    # print", "R32.3")
+add("C32", "single endpoint selection inverted", "nifty/re/hmc.py", "proposal_candidate = select(remain, tree.proposal_candidate, qp)",
+    "proposal_candidate = select(remain, qp, tree.proposal_candidate)", "R32.3")
+add("C32", "key reused for direction and subtree", "nifty/re/hmc.py", "go_right = random.bernoulli(key_dir, 0.5)", "go_right = random.bernoulli(key_subtree, 0.5)", "R32.4")
+add("C32", "NaN energy accepted", "nifty/re/hmc.py", "jnp.where(jnp.isnan(energy_diff), -jnp.inf, energy_diff)", "jnp.where(jnp.isnan(energy_diff), jnp.inf, energy_diff)", "R32.5")
+add("C32", "acceptance uses reversed energy difference", "nifty/re/hmc.py", "energy_diff = total_energy(initial_qp) - total_energy(proposed_qp)",
+    "energy_diff = total_energy(proposed_qp) - total_energy(initial_qp)", "R32.5")
+add("C33", "vdot without conjugation", "nifty/re/tree_math/vector_math.py", "tree_map(partial(jnp.vdot, precision=precision), a, b)",
+    "tree_map(partial(jnp.dot, precision=precision), a, b)", "R33.2")
+add("C33", "vdot swaps operands", "nifty/re/tree_math/vector_math.py", "tree_map(partial(jnp.vdot, precision=precision), a, b)",
+    "tree_map(partial(jnp.vdot, precision=precision), b, a)", "R33.2")
+add("C33", "max reduces pairs with min", "nifty/re/tree_math/vector_math.py", "max = _unary_reduction(jnp.max)", "max = _unary_reduction(jnp.min)", "R33.2")
+add("C33", "norm ord=0 branch removed", "nifty/re/tree_math/vector_math.py", "    if ord == 0:\n", "    if ord is None:\n", "R33.2")
+add("C33", "smap returns input for unmapped output", "nifty/re/custom_map.py", "            out.append(el[0])", "            out.append(unmapped.pop(0))", "R33.3")
+add("C33", "smap moves output to the input axis order", "nifty/re/custom_map.py", "out.append(_moveaxis(el, 0, i))", "out.append(_moveaxis(el, i, 0))", "R33.3")
+VARIANTS = V
